@@ -569,6 +569,22 @@ pub fn run_concrete(c: &Concrete, port: u16) -> CallRecord {
     run_call(&c.script, DEFAULT_MAX_OPS, move || valve::query(&addr(port), engine, Some(gather), timeouts(retries)))
 }
 
+/// The per-game representation of a protocol-level Valve response, field by field as RESPONSES.md documents it (re-stated
+/// here, not taken from the library's conversion function, which is one of the things under test).
+pub fn game_json_of(v: &Value) -> Value {
+    let i = &v["info"];
+    let ed = &i["extra_data"];
+    json!({
+        "protocol": i["protocol_version"], "name": i["name"], "map": i["map"], "game": i["game_mode"],
+        "appid": i["appid"], "players_online": i["players_online"],
+        "players_details": v["players"].as_array().map(|ps| ps.iter().map(|p| json!({"name":p["name"],"score":p["score"],"duration":p["duration"]})).collect::<Vec<_>>()).unwrap_or_default(),
+        "players_maximum": i["players_maximum"], "players_bots": i["players_bots"], "server_type": i["server_type"],
+        "has_password": i["has_password"], "vac_secured": i["vac_secured"], "version": i["game_version"],
+        "port": ed["port"], "steam_id": ed["steam_id"], "tv_port": ed["tv_port"], "tv_name": ed["tv_name"],
+        "keywords": ed["keywords"], "rules": if v["rules"].is_null() { json!({}) } else { v["rules"].clone() },
+    })
+}
+
 /// (the enum wrappers of the generic response are not part of a comparison)
 pub fn strip_enum_wrappers(v: &Value) -> &Value {
     let mut cur = v;
@@ -988,17 +1004,7 @@ fn one_layout_case(ctx: &Ctx, rng: &mut StdRng, lsec: &str, shape: &Value, tr: &
         if let Ok(resp) = serde_json::from_value::<valve::Response>(v.clone()) {
             let g = valve::game::Response::new_from_valve_response(resp.clone());
             let gj = serde_json::to_value(&g).unwrap();
-            let i = &v["info"];
-            let ed = &i["extra_data"];
-            let want = json!({
-                "protocol": i["protocol_version"], "name": i["name"], "map": i["map"], "game": i["game_mode"],
-                "appid": i["appid"], "players_online": i["players_online"],
-                "players_details": v["players"].as_array().map(|ps| ps.iter().map(|p| json!({"name":p["name"],"score":p["score"],"duration":p["duration"]})).collect::<Vec<_>>()).unwrap_or_default(),
-                "players_maximum": i["players_maximum"], "players_bots": i["players_bots"], "server_type": i["server_type"],
-                "has_password": i["has_password"], "vac_secured": i["vac_secured"], "version": i["game_version"],
-                "port": ed["port"], "steam_id": ed["steam_id"], "tv_port": ed["tv_port"], "tv_name": ed["tv_name"],
-                "keywords": ed["keywords"], "rules": if v["rules"].is_null() { json!({}) } else { v["rules"].clone() },
-            });
+            let want = game_json_of(v);
             if let Some(d) = diff("", &want, &gj) {
                 rep.violation(
                     "C02",
